@@ -38,3 +38,31 @@ Proof.
       repeat (destruct Hy as [<-|Hy]; [simpl; lia|]); try contradiction.
   - vm_compute. reflexivity.
 Qed.
+
+(* ---- tie C: the statement about the code itself ----
+   [g_compl_sweep] is the Gallina translation of the SOURCE TEXT of Complement._sweep, regenerated
+   from /repo on every run (Gen/Source.v).  It equals the model for all inputs ... *)
+From CG Require Import Gen.Source Proofs.GenEq.
+
+Theorem C06_source_is_model : forall xs a b, g_compl_sweep xs a b = compl_sweep xs a b.
+Proof. exact g_compl_sweep_eq. Qed.
+Print Assumptions C06_source_is_model.
+
+(* ... so the theorem holds of what the code says now *)
+Theorem C06_source_complement_canonical_and_exact :
+  forall xs a b, wf_win a b -> Forall wf_ivl xs -> sorted_start xs ->
+    let out := g_compl_sweep xs a b in
+    (forall g, In g out -> good_gap (bnd_lo a) (bnd_hi b) g) /\
+    separatedP out /\
+    (forall t, bnd_lo a <= t < bnd_hi b -> covers out t = negb (covers xs t)).
+Proof. intros xs a b. rewrite g_compl_sweep_eq. apply compl_sweep_spec. Qed.
+Print Assumptions C06_source_complement_canonical_and_exact.
+
+(* Complement.fetch (forward, and reverse by time negation) over ANY source, as the model's
+   Compl case of fetch has it *)
+Theorem C06_source_fetch_is_model : forall src a b rv,
+  g_compl_fetch src a b rv =
+  if rv then neg_stream (compl_sweep (neg_stream (src a b true)) (negO b) (negO a))
+  else compl_sweep (src a b false) a b.
+Proof. exact g_compl_fetch_eq. Qed.
+Print Assumptions C06_source_fetch_is_model.
